@@ -3,20 +3,27 @@ Expressions and statements at token level (src/syntax/src/{expressions,structure
 the formula grammar of Model/Formula.lean with structured operands —
 
   expression := formula | formula ".." formula [".." formula]          (range operators `..` and `..=`)
-  factor     := literal | name | name "(" [expression {"," expression}] ")"
+  factor     := literal | name | name "(" [argument {"," argument}] ")"     argument := [name ":"] expression
               | "[" [row {";" row}] "]"         row := expression {" " expression}
               | "(" ")" | "(" expression "," … ")"   (a tuple; one formula in parentheses is a parenthetical term)
-              | "{" [expression {"," expression}] "}"
-              | name "[" subscript {"," subscript} "]"      subscript := ":" | expression
+              | "{" [expression {"," expression}] "}"                     (a set; `{}` is the empty set)
+              | "{" binding {"," binding} "}"       binding := name [kind] ":" expression     (a record)
+              | "{" ":" "}" | "{" mapping {"," mapping} "}"   mapping := expression ":" expression  (a map)
+              | name selector {selector}                     subscript := ":" | expression
+                  selector := "[" subscript {"," subscript} "]" | "{" subscript {"," subscript} "}"
+                            | "." name | "." integer | "." name "," name {"," name}   (a swizzle)
+              | "|" field {" " field} "|" row "|" {row "|"}     field := name kind     (a table literal)
               | "(" formula ")" | "-" factor | "!" factor,   each optionally followed by "'"
   statement  := ["~"] name [kind] ":=" expression
-              | name ["[" subscripts "]"] ("=" | "+=" | "-=" | …) expression
+              | name {selector} ("=" | "+=" | "-=" | …) expression
   program    := statement {newline statement}
 
 Tokens stand for lexemes in their canonical spelling: the element separator inside a matrix row is
-its own token (`sp`), a kind annotation is opaque, literals and names are numbered.  Every
-recursive call spends one unit of fuel (structural recursion); lists are read by the generic
-`sepBy`, which stops at the first token that is not the separator.
+its own token (`sp`), so is the comma inside a swizzle (`swz`: no space may follow it), a kind annotation is
+opaque, literals and names are numbered (the integer after a dot is a literal token).  Every recursive call
+spends one unit of fuel (structural recursion); separated lists are read by the generic `sepBy`, which stops at the
+first token that is not the separator, repetitions without separator (the subscripts after a name, the rows of a
+table) by the generic `many`, which stops at the first element that does not parse.
 -/
 import MechVerif.Model.Prec
 namespace MechVerif.Syntax
@@ -25,7 +32,7 @@ open MechVerif.Prec
 inductive Tok where
   | lit (n : Nat) | id (n : Nat)
   | lp | rp | lb | rb | lc | rc
-  | comma | semi | sp | colon
+  | comma | semi | sp | colon | dot | swz | bar
   | dots (incl : Bool)
   | op (o : Op) | dash | bang | quote
   | tilde | define | assign | opAssign (k : Nat) | kind (n : Nat) | nl
@@ -41,14 +48,44 @@ inductive Sub (α : Type) where
   | all
   | ex (e : Ex α)
 
+/-- one subscript of a name: `[…]`, `{…}`, `.name`, `.1`, `.a,b` -/
+inductive Sel (α : Type) where
+  | bracket (ss : List (Sub α))
+  | brace (ss : List (Sub α))
+  | dot (y : Nat)
+  | dotInt (k : Nat)
+  | swizzle (y : Nat) (ys : List Nat)
+
+/-- an argument of a call: positional or named -/
+inductive Arg (α : Type) where
+  | pos (e : Ex α)
+  | named (x : Nat) (e : Ex α)
+
+/-- a binding of a record: name, optional kind annotation, value -/
+inductive Bind (α : Type) where
+  | mk (x : Nat) (k : Option Nat) (e : Ex α)
+
+/-- an element of a map -/
+inductive Mapping (α : Type) where
+  | mk (k v : Ex α)
+
+/-- an element between braces before the literal is classified -/
+inductive Ent (α : Type) where
+  | plain (e : Ex α)
+  | keyed (k v : Ex α)
+  | bind (x : Nat) (k : Option Nat) (e : Ex α)
+
 inductive Fac where
   | lit (n : Nat)
   | var (n : Nat)
-  | call (f : Nat) (args : List (Ex Fac))
+  | call (f : Nat) (args : List (Arg Fac))
   | mat (rows : List (List (Ex Fac)))
   | tup (es : List (Ex Fac))
   | set (es : List (Ex Fac))
-  | slice (x : Nat) (subs : List (Sub Fac))
+  | recd (bs : List (Bind Fac))
+  | map (ms : List (Mapping Fac))
+  | tbl (hdr : List (Nat × Nat)) (rows : List (List (Ex Fac)))
+  | slice (x : Nat) (sels : List (Sel Fac))
   | paren (t : Tree Fac)
   | neg (f : Fac)
   | not (f : Fac)
@@ -92,6 +129,29 @@ def sepBy {α : Type} (p : List Tok → Option (α × List Tok)) (sep : Tok) : N
         else some ([a], r)
       | [] => some ([a], [])
 
+/-- `many0(p)`: elements for as long as `p` accepts; at most `k` of them -/
+def many {α : Type} (p : List Tok → Option (α × List Tok)) : Nat → List Tok → List α × List Tok
+  | 0, ts => ([], ts)
+  | k + 1, ts =>
+    match p ts with
+    | none => ([], ts)
+    | some (a, r) => (a :: (many p k r).1, (many p k r).2)
+
+/-- a field of a table header: name and kind annotation -/
+def pField : List Tok → Option ((Nat × Nat) × List Tok)
+  | .id x :: .kind k :: r => some ((x, k), r)
+  | _ => none
+
+/-- a row of a table: cells, then the bar that closes the row -/
+def rowOf {α : Type} (p : List Tok → Option (α × List Tok)) (ts : List Tok) : Option (List α × List Tok) :=
+  match sepBy p .sp ts.length ts with
+  | some (cells, .bar :: r) => some (cells, r)
+  | _ => none
+
+def pName : List Tok → Option (Nat × List Tok)
+  | .id y :: r => some (y, r)
+  | _ => none
+
 /-- a list that may be empty, closed by `close` -/
 def listTill {α : Type} (p : List Tok → Option (α × List Tok)) (sep close : Tok) (ts : List Tok) : Option (List α × List Tok) :=
   match ts with
@@ -102,6 +162,45 @@ def listTill {α : Type} (p : List Tok → Option (α × List Tok)) (sep close :
      | _ => none)
   | [] => none
 
+/-! the literal between braces: `structure` tries `empty_set` (`{}`), `empty_map` (`{:}`), then `record`, `map`, `set`;
+    a record is a list of bindings (`name [kind] : e`), a map a list of `e : e`, a set a list of `e`, each closed by
+    `}`.  The model reads the entries once and classifies them, which decides every text as the backtracking does:
+    `record` succeeds exactly when every entry is a binding; otherwise (`many1(binding)` stopped early and `}` did
+    not follow) `map` succeeds exactly when every entry is `e : e` — a binding without a kind annotation is also such an
+    entry, its key the bare name, one with a kind annotation is not in this sublanguage; otherwise `set` succeeds exactly
+    when no entry has a colon; mixed texts fail in all three. -/
+
+def allBind : List (Ent Fac) → Option (List (Bind Fac))
+  | [] => some []
+  | .bind x k e :: es => (match allBind es with | some bs => some (.mk x k e :: bs) | none => none)
+  | _ :: _ => none
+
+def allKeyed : List (Ent Fac) → Option (List (Mapping Fac))
+  | [] => some []
+  | .keyed k v :: es => (match allKeyed es with | some ms => some (.mk k v :: ms) | none => none)
+  | .bind x none e :: es => (match allKeyed es with | some ms => some (.mk (.form (.leaf (.var x))) e :: ms) | none => none)
+  | _ :: _ => none
+
+def allPlain : List (Ent Fac) → Option (List (Ex Fac))
+  | [] => some []
+  | .plain e :: es => (match allPlain es with | some xs => some (e :: xs) | none => none)
+  | _ :: _ => none
+
+/-- record if every entry is a binding, else map if every entry has a key, else set if none has -/
+def classify (ents : List (Ent Fac)) : Option Fac :=
+  match ents with
+  | [] => some (.set [])
+  | _ =>
+    match allBind ents with
+    | some bs => some (.recd bs)
+    | none =>
+      match allKeyed ents with
+      | some ms => some (.map ms)
+      | none =>
+        match allPlain ents with
+        | some es => some (.set es)
+        | none => none
+
 mutual
 /-- `factor` -/
 def pFac (g : Gram) : Nat → List Tok → Option (Fac × List Tok)
@@ -110,21 +209,28 @@ def pFac (g : Gram) : Nat → List Tok → Option (Fac × List Tok)
     match ts with
     | .lit a :: r => some (post (.lit a) r)
     | .id x :: .lp :: r =>
-      (match listTill (pEx g n) .comma .rp r with
+      (match listTill (pArg g n) .comma .rp r with
        | some (args, r') => some (post (.call x args) r')
        | none => none)
-    | .id x :: .lb :: r =>
-      (match sepBy (pSub g n) .comma r.length r with
-       | some (subs, .rb :: r') => some (post (.slice x subs) r')
-       | _ => none)
-    | .id x :: r => some (post (.var x) r)
+    | .id x :: r =>
+      (match many (pSel g n) r.length r with
+       | ([], r') => some (post (.var x) r')
+       | (sels, r') => some (post (.slice x sels) r'))
     | .lb :: r =>
       (match listTill (fun ts => sepBy (pEx g n) .sp ts.length ts) .semi .rb r with
        | some (rows, r') => some (post (.mat rows) r')
        | none => none)
+    | .bar :: r =>
+      (match sepBy pField .sp r.length r with
+       | some (hdr, .bar :: r1) =>
+         (match many (rowOf (pEx g n)) r1.length r1 with
+          | ([], _) => none
+          | (rows, r2) => some (post (.tbl hdr rows) r2))
+       | _ => none)
+    | .lc :: .colon :: .rc :: r => some (post (.map []) r)
     | .lc :: r =>
-      (match listTill (pEx g n) .comma .rc r with
-       | some (es, r') => some (post (.set es) r')
+      (match listTill (pEnt g n) .comma .rc r with
+       | some (ents, r') => (match classify ents with | some f => some (post f r') | none => none)
        | none => none)
     | .lp :: r =>
       (match listTill (pEx g n) .comma .rp r with
@@ -184,23 +290,58 @@ def pSub (g : Gram) : Nat → List Tok → Option (Sub Fac × List Tok)
     match ts with
     | .colon :: r => some (.all, r)
     | _ => (match pEx g n ts with | some (e, r) => some (.ex e, r) | none => none)
+/-- one subscript after a name -/
+def pSel (g : Gram) : Nat → List Tok → Option (Sel Fac × List Tok)
+  | 0, _ => none
+  | n + 1, ts =>
+    match ts with
+    | .lb :: r =>
+      (match sepBy (pSub g n) .comma r.length r with
+       | some (subs, .rb :: r') => some (.bracket subs, r')
+       | _ => none)
+    | .lc :: r =>
+      (match sepBy (pSub g n) .comma r.length r with
+       | some (subs, .rc :: r') => some (.brace subs, r')
+       | _ => none)
+    | .dot :: .id y :: .swz :: r =>
+      (match sepBy pName .swz r.length r with
+       | some (ys, r') => some (.swizzle y ys, r')
+       | none => none)
+    | .dot :: .id y :: r => some (.dot y, r)
+    | .dot :: .lit k :: r => some (.dotInt k, r)
+    | _ => none
+/-- an argument of a call: `call-arg-with-binding | call-arg` -/
+def pArg (g : Gram) : Nat → List Tok → Option (Arg Fac × List Tok)
+  | 0, _ => none
+  | n + 1, ts =>
+    match ts with
+    | .id x :: .colon :: r => (match pEx g n r with | some (e, r') => some (.named x e, r') | none => none)
+    | _ => (match pEx g n ts with | some (e, r) => some (.pos e, r) | none => none)
+/-- an entry between braces: a binding, or an expression optionally followed by `:` and a value -/
+def pEnt (g : Gram) : Nat → List Tok → Option (Ent Fac × List Tok)
+  | 0, _ => none
+  | n + 1, ts =>
+    match ts with
+    | .id x :: .kind k :: .colon :: r => (match pEx g n r with | some (e, r') => some (.bind x (some k) e, r') | none => none)
+    | .id x :: .colon :: r => (match pEx g n r with | some (e, r') => some (.bind x none e, r') | none => none)
+    | _ =>
+      (match pEx g n ts with
+       | some (a, .colon :: r) => (match pEx g n r with | some (b, r') => some (.keyed a b, r') | none => none)
+       | some (a, r) => some (.plain a, r)
+       | none => none)
 end
 
 /-! ### statements and programs -/
 
 inductive Stmt where
   | define (mu : Bool) (x : Nat) (k : Option Nat) (e : Exp)
-  | assign (x : Nat) (subs : List (Sub Fac)) (e : Exp)
-  | opAssign (x : Nat) (subs : List (Sub Fac)) (k : Nat) (e : Exp)
+  | assign (x : Nat) (sels : List (Sel Fac)) (e : Exp)
+  | opAssign (x : Nat) (sels : List (Sel Fac)) (k : Nat) (e : Exp)
 
-/-- `slice-ref`: a name with an optional bracket subscript -/
-def pTarget (g : Gram) (n : Nat) (ts : List Tok) : Option (Nat × List (Sub Fac) × List Tok) :=
+/-- `slice-ref`: a name with optional subscripts -/
+def pTarget (g : Gram) (n : Nat) (ts : List Tok) : Option (Nat × List (Sel Fac) × List Tok) :=
   match ts with
-  | .id x :: .lb :: r =>
-    (match sepBy (pSub g n) .comma r.length r with
-     | some (subs, .rb :: r') => some (x, subs, r')
-     | _ => none)
-  | .id x :: r => some (x, [], r)
+  | .id x :: r => some (x, (many (pSel g n) r.length r).1, (many (pSel g n) r.length r).2)
   | _ => none
 
 def pDefine (g : Gram) (n : Nat) (mu : Bool) (ts : List Tok) : Option (Stmt × List Tok) :=
@@ -240,11 +381,14 @@ mutual
 def rFac (g : Gram) : Fac → List Tok
   | .lit n => [.lit n]
   | .var n => [.id n]
-  | .call f args => .id f :: .lp :: rExs g args ++ [.rp]
+  | .call f args => .id f :: .lp :: rArgs g args ++ [.rp]
   | .mat rows => .lb :: rRows g rows ++ [.rb]
   | .tup es => .lp :: rExs g es ++ [.rp]
   | .set es => .lc :: rExs g es ++ [.rc]
-  | .slice x subs => .id x :: .lb :: rSubs g subs ++ [.rb]
+  | .recd bs => .lc :: rBinds g bs ++ [.rc]
+  | .map ms => .lc :: (if ms.isEmpty then [.colon] else rMaps g ms) ++ [.rc]
+  | .tbl hdr rows => .bar :: rSep (fun f => [.id f.1, .kind f.2]) .sp hdr ++ .bar :: rTRows g rows
+  | .slice x sels => .id x :: rSels g sels
   | .paren t => .lp :: rTrm g t ++ [.rp]
   | .neg f => .dash :: rFac g f
   | .not f => .bang :: rFac g f
@@ -268,6 +412,9 @@ def rRows (g : Gram) : List (List Exp) → List Tok
   | [] => []
   | [r] => rRow g r
   | r :: r' :: rs => rRow g r ++ .semi :: rRows g (r' :: rs)
+def rTRows (g : Gram) : List (List Exp) → List Tok
+  | [] => []
+  | r :: rs => rRow g r ++ .bar :: rTRows g rs
 def rSub (g : Gram) : Sub Fac → List Tok
   | .all => [.colon]
   | .ex e => rEx g e
@@ -275,10 +422,42 @@ def rSubs (g : Gram) : List (Sub Fac) → List Tok
   | [] => []
   | [s] => rSub g s
   | s :: s' :: ss => rSub g s ++ .comma :: rSubs g (s' :: ss)
+def rSel (g : Gram) : Sel Fac → List Tok
+  | .bracket ss => .lb :: rSubs g ss ++ [.rb]
+  | .brace ss => .lc :: rSubs g ss ++ [.rc]
+  | .dot y => [.dot, .id y]
+  | .dotInt k => [.dot, .lit k]
+  | .swizzle y ys => .dot :: .id y :: .swz :: rSep (fun z => [.id z]) .swz ys
+def rSels (g : Gram) : List (Sel Fac) → List Tok
+  | [] => []
+  | s :: ss => rSel g s ++ rSels g ss
+def rArg (g : Gram) : Arg Fac → List Tok
+  | .pos e => rEx g e
+  | .named x e => .id x :: .colon :: rEx g e
+def rArgs (g : Gram) : List (Arg Fac) → List Tok
+  | [] => []
+  | [a] => rArg g a
+  | a :: a' :: as => rArg g a ++ .comma :: rArgs g (a' :: as)
+def rBind (g : Gram) : Bind Fac → List Tok
+  | .mk x k e => .id x :: ((match k with | some k => [.kind k] | none => []) ++ .colon :: rEx g e)
+def rBinds (g : Gram) : List (Bind Fac) → List Tok
+  | [] => []
+  | [b] => rBind g b
+  | b :: b' :: bs => rBind g b ++ .comma :: rBinds g (b' :: bs)
+def rMapping (g : Gram) : Mapping Fac → List Tok
+  | .mk k v => rEx g k ++ .colon :: rEx g v
+def rMaps (g : Gram) : List (Mapping Fac) → List Tok
+  | [] => []
+  | [m] => rMapping g m
+  | m :: m' :: ms => rMapping g m ++ .comma :: rMaps g (m' :: ms)
 end
 
-def rTarget (g : Gram) (x : Nat) (subs : List (Sub Fac)) : List Tok :=
-  if subs.isEmpty then [.id x] else .id x :: .lb :: rSubs g subs ++ [.rb]
+def rEnt (g : Gram) : Ent Fac → List Tok
+  | .plain e => rEx g e
+  | .keyed k v => rEx g k ++ .colon :: rEx g v
+  | .bind x k e => .id x :: ((match k with | some k => [.kind k] | none => []) ++ .colon :: rEx g e)
+
+def rTarget (g : Gram) (x : Nat) (sels : List (Sel Fac)) : List Tok := .id x :: rSels g sels
 
 def rStmt (g : Gram) : Stmt → List Tok
   | .define mu x k e =>
